@@ -34,7 +34,8 @@ def run(report: Report, tier, seed):
                            ("contracts.c03_options", "UseFramePointers", "O3.2b"),
                            ("contracts.c03_optimizer", "HasLoadDependencies", "O3.5"),
                            ("contracts.c03_optimizer", "ApplySlotToStack", "O3.4"),
-                           ("contracts.c03_optimizer", "RemoveExtraneousSlotAccess", "O3.6")])
+                           ("contracts.c03_optimizer", "RemoveExtraneousSlotAccess", "O3.6"),
+                           ("contracts.c03_optimizer", "CollectUnoptimizedSlots", "O3.7")])
     from . import opt_native
     oc, of = opt_native.check_has_load_dependencies()
     report.bounded.append(Bounded(function="pyteal.compiler.optimizer.optimizer._has_load_dependencies", contract="True iff another load of the slot exists anywhere in the routine",
@@ -111,6 +112,8 @@ def run(report: Report, tier, seed):
             if sbad:
                 return {"input": {"scenario": sbad[0]["job"]}, "what": sbad[0]["problems"][0]["what"]}
             return fails[0] if fails else None
+        if "collect_unoptimized_slots" in fn:
+            return {"input": {"scenario": sbad[0]["job"]}, "what": sbad[0]["problems"][0]["what"]} if sbad else None
         if "_has_load_dependencies" in fn:
             return {"input": of[0]} if of else None
         return fails[0] if fails else None
